@@ -166,7 +166,7 @@ class _Pty:
                 pass
 
 
-def run_unget(tables, items, pieces, enc, pipe, ctx=False):
+def run_unget(tables, items, pieces, enc, pipe, ctx=False, sigint=False):
     """The keypresses `items` reach an Input (bytes naming) through unget_bytes in pieces of `pieces` items each (the
     way a window hands over what it read past a cursor report), one request after every piece - so a piece arrives
     while earlier keypresses are still buffered - then requests until nothing comes any more."""
@@ -184,7 +184,7 @@ def run_unget(tables, items, pieces, enc, pipe, ctx=False):
         return k
     term = _Pty() if ctx else None
     try:
-        inp = cinput.Input(in_stream=term if ctx else pipe, keynames=tables.modes["bytes"])
+        inp = cinput.Input(in_stream=term if ctx else pipe, keynames=tables.modes["bytes"], sigint_event=bool(sigint))
         pos = 0
         k = 0
         while pos < len(items):
@@ -217,7 +217,7 @@ def run_unget(tables, items, pieces, enc, pipe, ctx=False):
     return {"keys": keys, "exc": exc}
 
 
-def run_pipe(tables, items, enc, pipe, highfd=False):
+def run_pipe(tables, items, enc, pipe, highfd=False, sigint=False):
     """End to end: the keypresses `items` (byte strings) are written to the pipe an Input (bytes naming, paste
     detection on) reads from - all of them have arrived before the first request - and requests with timeout 0
     are made until nothing comes any more.  Returns the keys handed back (pastes flattened) and what was raised."""
@@ -230,7 +230,7 @@ def run_pipe(tables, items, enc, pipe, highfd=False):
     try:
         os.write(pipe.w, data)
         stream = _HighFd(pipe.r) if highfd else pipe      # the same pipe under a descriptor number above 256
-        inp = cinput.Input(in_stream=stream, keynames=tables.modes["bytes"])
+        inp = cinput.Input(in_stream=stream, keynames=tables.modes["bytes"], sigint_event=bool(sigint))
         quiet = 0
         for _ in range(len(data) + 10):
             try:
